@@ -16,6 +16,7 @@ Print Assumptions C10_integer.
 
 Theorem C10_integer_nothing_for_nonpositive : forall n, (n <= 0)%Z -> range_int n = [].
 Proof. intros n H. unfold range_int. replace (Z.to_nat n) with 0%nat by lia. reflexivity. Qed.
+Print Assumptions C10_integer_nothing_for_nonpositive.
 
 (* string: for every byte string (valid UTF-8 or not), the iterator produces the
    (byte offset, rune) pairs of the range statement *)
@@ -31,8 +32,10 @@ Print Assumptions C10_string.
 Theorem C10_decoder_roundtrip :
   forall r tl, scalar r -> decode_rune (encode_rune r ++ tl) = (r, length (encode_rune r)).
 Proof. exact decode_encode. Qed.
+Print Assumptions C10_decoder_roundtrip.
 Theorem C10_decoder_progress : forall p, p <> [] -> (1 <= snd (decode_rune p) <= 4)%nat.
 Proof. exact decode_width_pos. Qed.
+Print Assumptions C10_decoder_progress.
 
 (* slice: length snapshot, element i read when iteration i starts, for every
    length and every body (= arbitrary store transformer per iteration) *)
@@ -48,6 +51,7 @@ Theorem C10_chan :
   forall (V : Type) (zeroV : V) (q : list V) (cur : V),
     ch_drain zeroV (S (length q)) {| ch_q := q; ch_closed := true |} cur = Some q.
 Proof. exact chan_iter_correct. Qed.
+Print Assumptions C10_chan.
 
 (* map: every entry of the underlying Go map iterator is delivered unchanged, also
    when key or value is the nil interface (partial: reflect.MapIter itself — each
@@ -56,6 +60,7 @@ Proof. exact chan_iter_correct. Qed.
 Theorem C10_map_partial :
   forall (D : Type) (entries : list (option D * option D)), map (@map_current D) entries = entries.
 Proof. exact map_iter_correct. Qed.
+Print Assumptions C10_map_partial.
 
 (* non-vacuity *)
 Example C10_example_string :
